@@ -142,6 +142,16 @@ def strategy(tier):
     return _scn()
 
 
+def enumerated(tier):
+    """fixed trees whose files all differ in content (so that the rename-detection part always applies), flat and with a
+    nested history, patterns of every class"""
+    tree = {"a.mov": "content a", "notes.txt": "content n", "x.tmp": "content x", "d": {"b.mov": "content b", "notes.txt": "content dn", "cache": {"c.bin": "content c"}}, "e": {"cache": "content ec"}}
+    for pats in (["*.tmp"], ["/notes.txt", "cache/"], ["d/notes.txt", "x.tmp"]):
+        for child in (None, "d"):
+            yield {"tree": tree, "child": child, "child_patterns": [], "edits": 4242, "child_at": 0,
+                   "gens": [{"i": pats, "ii": [], "formats": ["md5"], "ii_newline": False}, {"i": [], "ii": ["*.bak"], "formats": ["md5"], "ii_newline": True}]}
+
+
 def matches(relpath, patterns):
     """our reading of the three pattern classes on a root-relative path"""
     parts = relpath.split("/")
@@ -405,10 +415,12 @@ def run_case(scn, ctx):
         # entries were recorded by earlier generations (before their pattern became effective) or deleted above
         import re as _re
 
+        gone_contents = []
         victims = [f for f in w.media_files("R") if not matches(f[2:], eff) and (("R", f) in w.first or any(k[1] == f for k in w.first))]
         if victims:
             victim = victims[scn["edits"] % len(victims)]
             vh = w.deepest_root(victim, w.history_roots())
+            gone_contents.append(w.files[victim])
             w.rm(victim)
             for cmd in ("verify", "diff"):
                 res = getattr(w, cmd)("R")
@@ -425,7 +437,9 @@ def run_case(scn, ctx):
             feats.add("real_missing_next_to_excluded")
         # a file is renamed, the rename recorded with -dr, and only afterwards a pattern matching the new name becomes
         # effective (on the command line of verify / diff, then through a create): the former name must not resurface
-        if not scn["child"] and not any(matches(x, eff) for x in ("ren_src.mov", "ren_dst.qq7")) and "R/ren_src.mov" not in w.files:
+        # (rename detection presupposes pairwise distinct contents - C17 - also among the files that are gone)
+        contents_now = [w.files[f] for f in w.files if f.startswith("R/")] + gone_contents
+        if not scn["child"] and not any(matches(x, eff) for x in ("ren_src.mov", "ren_dst.qq7")) and "R/ren_src.mov" not in w.files and len(set(contents_now)) == len(contents_now):
             w.put("R/ren_src.mov", "content that only the renamed file has")
             r0 = w.create("R", ["md5"])
             w.mv("R/ren_src.mov", "R/ren_dst.qq7")
